@@ -26,8 +26,28 @@ Guards (why the oracle is not stricter than the library):
    its own node kind.
  * Boolean columns only hold 0/1/NULL (``x = 1`` vs ``x`` differ for other integers on
    non-native-boolean backends; that is outside the statement).
- * mechanisms are computed from a structurally shrunken witness: operator classes of
-   the smallest sub-tree that still differs.
+ * the result column is compared on raw driver values (result processors differ
+   between a Grouping and the element it wraps; they are not the subject).
+ * ``literal_binds`` renderings that still contain bound parameters (a dialect visitor
+   dropped ``**kw``: C05's subject) are a counted skip, never a C01 verdict.
+ * part B drops NOT over rewritable predicates and true()/false() members (negation
+   rewriting and constant folding are judged by execution in part A), canonicalises
+   mirrored comparisons / ``x = 1`` AsBoolean renderings / double negation on BOTH parse
+   trees, and skips a pair whose *reference* form the token model cannot parse (counted).
+ * mechanisms are computed from a structurally shrunken witness: the first known-defect
+   pattern the smallest still-differing tree contains, else the operator classes of
+   its top two levels.
+
+Candidate genuine defects this check re-finds on the unchanged tree (they keep firing;
+5 of 6 generated trees are rewritten by ``expr_ga.sanitize`` so that they contain none
+of these patterns and cannot be masked by them):
+  concat-operand-arith-ungrouped   ``s.concat(a - b)`` -> ``s || a - b``: on SQLite ``||``
+        binds tighter than arithmetic, on Oracle/MSSQL it has the precedence of + -
+  asboolean-operand-ungrouped      ``AsBoolean.self_group`` never parenthesises:
+        ``s.concat(~p)`` -> ``s || p = 0``;  PG: ``(~p).is_(None)`` -> ``NOT p IS NULL``
+  between-bound-ungrouped          ``q.between(x, a == 5)`` -> ``q BETWEEN x AND a = 5``
+  negation-of-is-keeps-is          ``~p.is_(q)`` -> ``p IS q`` (operator_lookup negate_op)
+  neg-of-negative-literal          ``-literal(-5)`` + literal_binds -> ``--5`` (a comment)
 """
 from __future__ import annotations
 
@@ -311,7 +331,10 @@ def calibrate_sqlite(ctx, rig, T, tree):
     wrong (harness failure -> inconclusive, never a violation)."""
     G, sa = rig.G, rig.sa
     expr = G.build(tree, rig.env)
-    comp = expr.compile(rig.eng, compile_kwargs={"literal_binds": True})
+    try:
+        comp = expr.compile(rig.eng, compile_kwargs={"literal_binds": True})
+    except sa.exc.CompileError:
+        return  # e.g. an IN list against a NullType expression has no literal renderer
     if comp.params:
         return
     text = str(comp)
